@@ -13,3 +13,16 @@ Lemma C08_cap_pinned_refuted : exists s thr minb maxb, (keep_dw_pinned QN s thr 
 Proof. exists [1; 9#10; 8#10; 7#10]%Q, (1#1000000)%Q, 2%nat, 2%nat. vm_compute. lia. Qed.
 Lemma C09_rank_pinned_refuted : exists s thr minb maxb, (keep_rel_pinned QN s thr minb maxb > length s)%nat.
 Proof. exists [1; 1#2]%Q, (1#10)%Q, 3%nat, 8%nat. vm_compute. lia. Qed.
+
+(* two_site_svd with its hard-coded floor of two kept values (before 2bbe02d): the uncapped SVD-based centre shift padded a
+   rank-one (product-state) bond to 2 although max_bond_dim = min_bond_dim = 1 *)
+Fixpoint tss_loop_pinned (N : Num) (rev_s : list (T N)) (idx len : nat) (discard thr : T N) : nat :=
+  match rev_s with
+  | [] => len
+  | s :: r => let nd := add N discard (mul N s s) in
+      if leb N thr nd then Nat.max (len - idx) 2 else tss_loop_pinned N r (S idx) len nd thr
+  end.
+Definition keep_tss_pinned (N : Num) (s : list (T N)) (thr : T N) : nat := tss_loop_pinned N (rev s) 0 (length s) (zero N) thr.
+Lemma C08_svd_shift_pinned_refuted : exists s thr chi minb, Forall (fun x => x == 0)%Q (skipn chi s) /\ (thr <= tail_weight QN s 0)%Q /\
+  (keep_tss_pinned QN s thr > Nat.max chi (Nat.min (length s) minb))%nat.
+Proof. exists [1; 0]%Q, (1#1000000000000)%Q, 1%nat, 1%nat. split; [repeat constructor; reflexivity|]. split; vm_compute; [discriminate|lia]. Qed.
